@@ -219,6 +219,31 @@ def h_shape(shape, span, anchor, tight, pin):
         prove("B5_snapped_y", qy == symx.s_floor(qy))
 
 
+def h_shape_int_snapped(n, span, pin):
+    """shape=<int> with the default snapping: the integer fixes the pixel size (longest span / n,
+    square pixels); the box is then snapped like any resolution-driven box, so it covers the
+    region and its longest side has n pixels, or n+1 when the region does not start on the grid"""
+    import odc.geo.geobox as gbx
+    from odc.geo.geom import BoundingBox
+
+    sx, sy = F(span[0]), F(span[1])
+    l = rconst(F(3, 4)) if pin == "x" else Real("left")
+    b = rconst(F(-7, 2)) if pin == "y" else Real("bottom")
+    bbox = BoundingBox(l, b, l + rconst(sx), b + rconst(sy), "epsg:3857")
+    tol = mk_tol("1/100")
+    g = gbx.GeoBox.from_bbox(bbox, shape=n, tol=tol)
+    res = max(sx, sy) / n
+    A = g.affine
+    prove("square_pixels", And(ex(A.a) == res, ex(A.e) == -res))
+    longest = m_max(g.shape.x, g.shape.y) if not symx.concrete_mode() else max(g.shape.x, g.shape.y)
+    prove("longest_side_n_or_n_plus_1", Or(longest == n, longest == n + 1))
+    x0, y0 = g.pix2wld(0, 0)
+    x1, y1 = g.pix2wld(g.shape.x, g.shape.y)
+    t = F(1, 100) * res
+    prove("covers_region", And(ex(x0) <= ex(l) + t, ex(x1) >= ex(l) + sx - t, ex(y1) <= ex(b) + t, ex(y0) >= ex(b) + sy - t))
+    prove("on_the_grid", And(ex(x0) / res == symx.s_floor(ex(x0) / res), ex(y0) / res == symx.s_floor(ex(y0) / res)) if not symx.concrete_mode() else True)
+
+
 def h_shape_int(n, span, pin):
     """shape=<int>: longest side spans n pixels, square pixels"""
     import odc.geo.geobox as gbx
@@ -303,5 +328,8 @@ OBLIGATIONS = [
     Ob("B5_shape", h_shape, _shape_params, descr="from_bbox(shape=): exact shape, pixel = span/shape, displaced < 1 pixel and snapped as requested, not displaced when tight/floating",
        functions=("odc.geo.geobox.GeoBox.from_bbox", "odc.geo.math.snap_grid"), bounds="shape and span from grid; region position symbolic", setup=setup, timeout_ms=30000),
     Ob("B5_shape_int", h_shape_int, fixed(dict(n=7, span=["70", "30"], pin="x"), dict(n=5, span=["1", "10"], pin="y")), descr="shape=<int>: longest side, square pixels", functions=("odc.geo.geobox.GeoBox.from_bbox",), setup=setup),
+    Ob("B5_shape_int_snapped", h_shape_int_snapped, fixed(dict(n=7, span=["70", "30"], pin="x"), dict(n=5, span=["1", "10"], pin="x"), dict(n=300, span=["30", "20"], pin="y")),
+       descr="shape=<int> with default snapping: pixel size = longest span / n (square), box on the grid, covers the region, longest side n or n+1",
+       functions=("odc.geo.geobox.GeoBox.from_bbox", "odc.geo.math.snap_grid"), bounds="n and spans from a grid; one axis origin symbolic, the other pinned", setup=setup),
     Ob("B_errors", h_errors, fixed(), descr="neither shape nor resolution => ValueError", functions=("odc.geo.geobox.GeoBox.from_bbox",), setup=setup),
 ]
